@@ -1,24 +1,25 @@
 (* Properties/C14.v — float/integer casts round and saturate exactly like Rust's `as`.
-   Floats are bit patterns; the specification (Proofs/FloatCast.v) is integer-only. *)
+   Floats are bit patterns; the specification (Proofs/FloatCast.v) is integer-only.
+   The facts about Shift / Bits / AddSub / Core the proofs use (Proofs/FloatCastDeps.v) are theorems of
+   Proofs/Shift.v, Bits.v, AddSub.v, Cmp.v: discharged in Proofs/DischargeFloat.v, no premise is left. *)
 From Bnum Require Import Base Prim.
 From Bnum.Model Require Import Digit Core Shift AddSub Bits FloatCast.
-From Bnum.Proofs Require Import FloatCastDeps FloatCast FloatCastTo.
+From Bnum.Proofs Require Import FloatCastDeps FloatCast FloatCastTo DischargeFloat.
 
 (* f32/f64 -> BUint: NaN -> 0, negative -> 0, +inf -> MAX, else truncate toward zero and saturate *)
 Theorem C14_float_to_uint_ok : forall dbg F w n x,
-  shl_internal_spec -> fmt_ok F -> 0 < w -> 0 <= x < 2 ^ fbits F ->
+  fmt_ok F -> 0 < w -> 0 <= x < 2 ^ fbits F ->
   exists r, U_from_float dbg F w n x = Ret r /\ wf w n r /\
             uval w r = float_to_U_spec F (Mod w n) x.
-Proof. exact cast_uint_from_float_ok. Qed.
+Proof. exact cast_uint_from_float_ok_closed. Qed.
 Print Assumptions C14_float_to_uint_ok.
 
 (* f32/f64 -> BInt: NaN -> 0, -inf -> MIN, +inf -> MAX, else truncate toward zero and saturate at MIN/MAX *)
 Theorem C14_float_to_sint_ok : forall dbg F w n x,
-  shl_internal_spec -> I_overflowing_neg_spec -> is_negative_spec -> ucmp_spec ->
   fmt_ok F -> 0 < w -> (0 < n)%nat -> 0 <= x < 2 ^ fbits F ->
   exists r, I_from_float dbg F w n x = Ret r /\ wf w n r /\
             sval w r = float_to_S_spec F (Mod w n) x.
-Proof. exact I_from_float_ok. Qed.
+Proof. exact I_from_float_ok_closed. Qed.
 Print Assumptions C14_float_to_sint_ok.
 
 (* BUint -> f32/f64.  With X the value and r the returned bit pattern (int_to_float_spec):
@@ -26,20 +27,17 @@ Print Assumptions C14_float_to_sint_ok.
    mantissa (rne_nearest, unique by C14_rne_nearest_unique);  X >= that threshold -> +infinity;
    bitlen X <= p -> r is finite and denotes X exactly. *)
 Theorem C14_uint_to_float_ok : forall dbg F w n a,
-  shr_pad_internal_spec -> bits_of_spec -> trailing_zeros_spec -> bit_spec ->
   fmt_ok F -> 0 < w -> wf w n a ->
   exists r, U_to_float dbg F w a = Ret r /\ int_to_float_spec F (uval w a) r.
-Proof. exact cast_float_from_uint_ok. Qed.
+Proof. exact cast_float_from_uint_ok_closed. Qed.
 Print Assumptions C14_uint_to_float_ok.
 
 (* BInt -> f32/f64: the magnitude |sval| is converted as above, the sign bit is set iff sval < 0 *)
 Theorem C14_sint_to_float_ok : forall dbg F w n a,
-  shr_pad_internal_spec -> bits_of_spec -> trailing_zeros_spec -> bit_spec ->
-  I_overflowing_neg_spec -> is_negative_spec ->
   fmt_ok F -> 0 < w -> (0 < n)%nat -> wf w n a ->
   exists f, I_to_float dbg F w a = Ret (if sval w a <? 0 then f + 2 ^ (fbits F - 1) else f) /\
             int_to_float_spec F (Z.abs (sval w a)) f.
-Proof. exact I_to_float_ok. Qed.
+Proof. exact I_to_float_ok_closed. Qed.
 Print Assumptions C14_sint_to_float_ok.
 
 (* "nearest, ties to even" determines the float: the specification is a characterisation *)
